@@ -56,6 +56,9 @@ pub fn check_value(origin: &str, v: &Version, loose: bool, st: &mut Stats) -> Re
     if let Err(m) = display_survives_failing_writer(v, &p) {
         return Err(Failure::new("display-depends-on-history", format!("{}: {}", origin, m)));
     }
+    if v.is_prerelease() == v.pre_release.is_empty() || w.is_prerelease() != v.is_prerelease() {
+        return Err(Failure::new("is-prerelease-wrong", format!("{}: is_prerelease() = {} with pre_release = {:?}", origin, v.is_prerelease(), v.pre_release)));
+    }
     let p2 = w.to_string();
     if p2 != p {
         return Err(Failure::new("print-not-fixed-point", format!("{}: prints {:?}, re-parsed value prints {:?}", origin, p, p2)));
